@@ -461,8 +461,10 @@ class Check:
               "wall_s": round(time.time() - self.t0, 2), "violations": len(self.violations),
               "known_findings_reported": self.known_printed,
               "repo_tree_hash": repo_hash()}
-        os.makedirs(os.path.join(VERIF, "evidence"), exist_ok=True)
-        with open(os.path.join(VERIF, "evidence", self.pid + ".json"), "w") as f:
+        # runs against a private copy of the repository (seeded-change tests) must not overwrite the evidence of /repo
+        evdir = os.path.join(VERIF, "evidence") if os.path.realpath(REPO) == "/repo" else os.path.join(OUT, "evidence_private_repo")
+        os.makedirs(evdir, exist_ok=True)
+        with open(os.path.join(evdir, self.pid + ".json"), "w") as f:
             json.dump(ev, f, indent=1, default=str)
         for key, path, no_input, text in self.violations:
             print("VIOLATION property=%s replay=%s%s" % (self.pid, path, " no-failing-input-found" if no_input else ""))
